@@ -353,6 +353,30 @@ def run(ctx):
             if got != want:
                 ctx.mismatch(stream="scaling " + q.split()[0], request=q[:400], model_says=got[:300], code_says=want[:300])
                 break
+    # ---- the requested dtype spelled with the other byte order ('>f4', '>c16', ...): either refused (TypeError / ValueError) or the same
+    # VALUES as the native request - never reinterpreted bytes -----------------------------------------------------------------------
+    from nitypes.complex import ComplexInt32DType as _CI
+    from nitypes.waveform import AnalogWaveform as _AW, ComplexWaveform as _CW, LinearScaleMode as _LSM, NO_SCALING as _NS
+    swap = ">" if np.dtype(np.float64).byteorder in ("=", "<") and np.little_endian else "<"
+    rawsets = [(_AW, np.int16, [1, -2, 300]), (_AW, np.float32, [1.5, -2.25, 3.0]), (_AW, np.float64, [1.5, -2.25, 3.0]), (_CW, np.complex64, [1 + 2j, -3.5j, 4]),
+               (_CW, np.complex128, [1 + 2j, -3.5j, 4]), (_CW, _CI, [(1, 2), (-3, 4), (300, -5)])]
+    for cls_, rdt, vals_ in rawsets:
+        for mode_ in (_NS, _LSM(2.0, 0.5), _LSM(1.0, 0.0)):
+            for native in ((np.float32, np.float64) if cls_ is _AW else (np.complex64, np.complex128)):
+                for spelled in (np.dtype(native).newbyteorder(swap), np.dtype(native).newbyteorder(swap).str, np.dtype(native).newbyteorder("="), np.dtype(native).str):
+                    w_ = cls_.from_array_1d(np.array(vals_, rdt), rdt, scale_mode=mode_)
+                    ref = outcome(lambda: w_.get_scaled_data(native))
+                    o = outcome(lambda: w_.get_scaled_data(spelled))
+                    ctx.case(("byte-order-request", cls_.__name__, str(np.dtype(rdt)), type(mode_).__name__, str(spelled)))
+                    if ref[0] != "ok":
+                        ctx.violation(what="native scaled dtype refused", observed=show(ref)[:120], required="values")
+                        continue
+                    if o[0] == "ok":
+                        if o[1].shape != ref[1].shape or not np.array_equal(o[1].astype(native), ref[1]):
+                            ctx.violation(what="scaled data for a byte-swapped spelling of the requested dtype", cls=cls_.__name__, raw_dtype=str(np.dtype(rdt)), scale_mode=repr(mode_)[:60], requested=str(spelled),
+                                          observed=str(o[1].astype(native).tolist())[:160], required=str(ref[1].tolist())[:160] + " (or a TypeError / ValueError)")
+                    elif o[1] not in ("TypeError", "ValueError"):
+                        ctx.violation(what="byte-swapped requested dtype: refusal class", requested=str(spelled), observed=show(o)[:120], required="TypeError / ValueError or the values")
     ctx.extra["model_lines_compared"] = len(lines)
     ctx.evaluations += len(lines)
     for q, e in list(zip(lines, expect))[:2000:200]:
